@@ -131,6 +131,8 @@ func runC16(p *Prog, r *Report) {
 	acceptLoopRules(p, r, "C16.8/accept-loop")
 	r.Floor("C16.8/accept-loop", "wire.accept_loops", 3)
 	acceptPauseBounded(p, r, "C16.21/accept-pause-bounded")
+	pipeQueueSendsWatchClose(p, r, "C16.23/queue-sends-watch-close", func(rel string) bool { return strings.HasPrefix(rel, "protocol/") })
+	r.Floor("C16.23/queue-sends-watch-close", "pipe_queue_sends.C16.23/queue-sends-watch-close", 3)
 	r.Describe("C16.9/reply-matching", "a reply whose id matches no outstanding request (stale, replayed or forged) is dropped: the id of an answered or abandoned request is forgotten")
 	c03ReplyMatching(p, r, "C16.9/reply-matching")
 	r.Describe("C16.6/handshake-validation", "malformed or mismatched headers never yield a pipe and never look like 'listener closed' to the accept loop")
